@@ -46,26 +46,25 @@ def render(md):
             return r.render(Document(md))
 
 
-def classify(blocks, o, got, want):
-    kf = known_block_defect(blocks, o)
-    return kf
-
-
-def known_block_defect(blocks, o):
-    """tree/spelling class predicates of the recorded findings"""
-    if trees.has_setext_in_quote(blocks):
-        return 'KF-C03-setext-in-quote'
-    if empty_nested_item_then_more(blocks):
-        return 'KF-C03-blank-after-empty-nested-item'
+def known_block_defect(blocks, o, got=None):
+    """a failure is attributed to a recorded finding only if the tree is in the finding's class AND the observed HTML is
+    exactly what the tree would give if that defect (or both) alone were present"""
+    sq = trees.has_setext_in_quote(blocks)
+    sw = empty_nested_item_then_more(blocks)
+    if not (sq or sw) or got is None:
+        return None
+    g = normalize_html(got)
+    for use_sq, use_sw, name in ((sq, False, 'KF-C03-setext-in-quote'), (False, sw, 'KF-C03-blank-after-empty-nested-item'),
+                                 (sq, sw, 'KF-C03-setext-in-quote')):
+        if not (use_sq or use_sw):
+            continue
+        try:
+            alt = trees.expected_html_under_defects(blocks, o, setext_in_quote=use_sq, swallow_blank=use_sw)
+        except Exception:
+            continue
+        if normalize_html(alt) == g:
+            return name
     return None
-
-
-def ends_with_empty_item(b):
-    """does block b end (at its last line) with an empty list item?"""
-    if b.kind != 'list':
-        return False
-    last = b.items[-1]
-    return len(last) == 0 or ends_with_empty_item(last[-1])
 
 
 def empty_nested_item_then_more(blocks):
@@ -74,9 +73,9 @@ def empty_nested_item_then_more(blocks):
         if b.kind == 'list':
             for j, it in enumerate(b.items):
                 for c in it[:-1]:
-                    if ends_with_empty_item(c):
+                    if trees.ends_with_empty_item(c):
                         return True
-                if j < len(b.items) - 1 and it and ends_with_empty_item(it[-1]):
+                if j < len(b.items) - 1 and it and trees.ends_with_empty_item(it[-1]):
                     return True
                 if empty_nested_item_then_more(it):
                     return True
@@ -106,7 +105,7 @@ def check_tree(r, blocks, o):
         return
     r.validated += 1
     if normalize_html(got) != normalize_html(want):
-        kf = known_block_defect(blocks, o)
+        kf = known_block_defect(blocks, o, got)
         r.fail(dict(markdown=md, spelling=trees.option_label(o), expected_html=want, kf=kf), 'html-differs-from-tree', kf=kf, expected=want, observed=got)
 
 
